@@ -63,7 +63,10 @@ METHODS = {
 ROOT = '''syntax = "proto3";
 message RootReq { int32 a = 1; }
 message RootResp { int32 b = 1; }
-service RootSvc { rpc Ping (RootReq) returns (RootResp); rpc Pings (RootReq) returns (stream RootResp); }
+service RootSvc { rpc Ping (RootReq) returns (RootResp); rpc Pings (RootReq) returns (stream RootResp);
+  // deprecated rpcs in a package that has nothing else deprecated
+  rpc OldPing (RootReq) returns (RootResp) { option deprecated = true; }
+  rpc OldPings (RootReq) returns (stream RootResp) { option deprecated = true; } }
 '''
 _G: Dict[str, Any] = {}
 
@@ -522,6 +525,67 @@ async def concurrent_case(case: Dict[str, Any]) -> List[Tuple[str, str]]:
     return out
 
 
+async def bulk_case(case: Dict[str, Any]) -> List[Tuple[str, str]]:
+    """A stream whose total volume exceeds the HTTP/2 flow-control windows in BOTH directions
+    (400 x 40 kB = 16 MB each way): the client must keep reading while it is still sending."""
+    main, other = gen()
+    T = types(main, other)
+    m = case["method"]
+    _, cstream, sstream, rk, _ = METHODS[m]
+    py = py_method_names(main)[m]
+    n, size = 400, 40_000
+    seen: List[int] = []
+
+    async def echo(self, arg):
+        async for r in arg:
+            seen.append(r.q)
+            yield T["Resp"](r=r.q, s=r.s)
+
+    async def collect(self, arg):
+        total = 0
+        async for r in arg:
+            seen.append(r.q)
+            total += len(r.s)
+        return T["Resp"](r=total % (2**31 - 1), s="")
+
+    async def spray(self, arg):
+        seen.append(arg.q)
+        for i in range(n):
+            yield T["Resp"](r=i, s="y" * size)
+
+    handler = echo if (cstream and sstream) else collect if cstream else spray
+    Svc = type("BulkSvc", (main.MainBase,), {py: handler})
+    reqs = [T["Req"](q=i, s="x" * size) for i in range(n)]
+
+    async def agen():
+        for r in reqs:
+            yield r
+
+    async with ChannelFor([Svc()]) as channel:
+        stub = main.MainStub(channel)
+        fn = getattr(stub, py)
+        arg = (reqs if case["source"] == "list" else agen()) if cstream else reqs[0]
+
+        async def run():
+            if sstream:
+                return [x async for x in fn(arg)]
+            return [await fn(arg)]
+        try:
+            got = await asyncio.wait_for(run(), 120)
+        except asyncio.TimeoutError:
+            return [("bulk-transfer-stuck", f"{m} ({case['source']} source): {n} x {size} bytes each way did not complete within 120 s "
+                     f"(handler had received {len(seen)} requests)")]
+        except Exception as e:
+            return [("bulk-transfer-failed", f"{m}: {type(e).__name__}: {e}"[:200])]
+    if cstream and sstream:
+        ok = [x.r for x in got] == list(range(n)) and all(len(x.s) == size for x in got)
+    elif cstream:
+        ok = len(got) == 1 and got[0].r == (n * size) % (2**31 - 1) and seen == list(range(n))
+    else:
+        ok = [x.r for x in got] == list(range(n)) and all(len(x.s) == size for x in got)
+    return [] if ok else [("bulk-transfer-differs", f"{m}: {len(got)} responses, handler saw {len(seen)} requests")]
+
+
 async def root_case(case: Dict[str, Any]) -> List[Tuple[str, str]]:
     """A service in the ROOT package (no proto package): route is /RootSvc/<Method>."""
     gen()
@@ -538,17 +602,31 @@ async def root_case(case: Dict[str, Any]) -> List[Tuple[str, str]]:
             yield root.RootResp(b=req.a)
             yield root.RootResp(b=req.a + 1)
 
+        async def old_ping(self, req):
+            record.append(("OldPing", req))
+            return root.RootResp(b=req.a + 1)
+
+        async def old_pings(self, req):
+            record.append(("OldPings", req))
+            yield root.RootResp(b=req.a)
+            yield root.RootResp(b=req.a + 1)
+
     out: List[Tuple[str, str]] = []
     try:
         async with ChannelFor([Svc()]) as channel:
             stub = root.RootSvcStub(channel)
             req = root.RootReq(a=case["a"])
-            if case["method"] == "Ping":
-                got = [await asyncio.wait_for(stub.ping(req), 40)]
-                want = [root.RootResp(b=case["a"] + 1)]
-            else:
-                got = [x async for x in stub.pings(req)]
-                want = [root.RootResp(b=case["a"]), root.RootResp(b=case["a"] + 1)]
+            import warnings
+            with warnings.catch_warnings():
+                warnings.simplefilter("ignore")  # the deprecated rpcs warn, by design
+                if case["method"] in ("Ping", "OldPing"):
+                    fn = stub.ping if case["method"] == "Ping" else stub.old_ping
+                    got = [await asyncio.wait_for(fn(req), 40)]
+                    want = [root.RootResp(b=case["a"] + 1)]
+                else:
+                    fn = stub.pings if case["method"] == "Pings" else stub.old_pings
+                    got = [x async for x in fn(req)]
+                    want = [root.RootResp(b=case["a"]), root.RootResp(b=case["a"] + 1)]
     except Exception as e:
         return [("root-package-call", f"{type(e).__name__}: {e}"[:200])]
     if got != want or record != [(case["method"], req)]:
@@ -583,13 +661,16 @@ def cases(tier: str) -> List[Dict[str, Any]]:
                 for nout in (0, 2):
                     out.append({"kind": "call", "method": m, "req_idx": [1], "n_out": nout, "outcome": oc,
                                 "as_async": False})
-    for rm in ("Ping", "Pings"):
+    for rm in ("Ping", "Pings", "OldPing", "OldPings"):
         for a in (0, 7):
             out.append({"kind": "root", "method": rm, "a": a})
     for m in ("DoThing", "list_things", "SENDAll", "Get2Fa"):
         for what in ("timeout", "deadline"):
             out.append({"kind": "reuse", "method": m, "what": what})
         out.append({"kind": "concurrent", "method": m})
+    for m, srcs in (("Get2Fa", ("list", "async")), ("SENDAll", ("list", "async")), ("list_things", ("list",))):
+        for src in srcs:
+            out.append({"kind": "bulk", "method": m, "source": src})
     for m in ("DoThing", "list_things", "SENDAll", "Get2Fa"):
         for cfg in itertools.product((0, 1), repeat=6):
             out.append({"kind": "precedence", "method": m, "cfg": list(cfg)})
@@ -602,10 +683,10 @@ def cases(tier: str) -> List[Dict[str, Any]]:
 def sig(case: Dict[str, Any], oracle: str) -> List[str]:
     if case["kind"] == "root":
         return ["grpc", oracle, "root-package", case["method"]]
-    if case["kind"] in ("reuse", "concurrent"):
+    if case["kind"] in ("reuse", "concurrent", "bulk"):
         _, cstream, sstream, rk, _ = METHODS[case["method"]]
         return ["grpc", oracle, ("stream" if cstream else "unary") + "-" + ("stream" if sstream else "unary"),
-                case["kind"] + ":" + case.get("what", "")]
+                case["kind"] + ":" + case.get("what", case.get("source", ""))]
     _, cstream, sstream, rk, _ = METHODS[case["method"]]
     card = ("stream" if cstream else "unary") + "-" + ("stream" if sstream else "unary")
     return ["grpc", oracle, card, case.get("outcome", "precedence")]
@@ -622,10 +703,10 @@ def _shard(shard: int, nshards: int, tier: str) -> Tally:
             case = cs[i]
             t.inc("calls")
             t.mark("distinct", (case["kind"], case["method"], tuple(case.get("req_idx", ())), case.get("n_out"),
-                                case.get("outcome"), str(case.get("as_async")), tuple(case.get("cfg", ())), case.get("a"), case.get("form"), case.get("what")))
+                                case.get("outcome"), str(case.get("as_async")), tuple(case.get("cfg", ())), case.get("a"), case.get("form"), case.get("what"), case.get("source")))
             try:
                 fn = {"precedence": precedence_case, "root": root_case, "reuse": reuse_case,
-                      "concurrent": concurrent_case}.get(case["kind"], one_case)
+                      "concurrent": concurrent_case, "bulk": bulk_case}.get(case["kind"], one_case)
                 fails = loop.run_until_complete(fn(case))
             except Exception as e:
                 fails = [("harness-raised", f"{type(e).__name__}: {e}"[:300])]
@@ -671,7 +752,7 @@ def replay(case: dict) -> List[Violation]:
     loop = asyncio.new_event_loop()
     try:
         fn = {"precedence": precedence_case, "root": root_case, "reuse": reuse_case,
-                      "concurrent": concurrent_case}.get(case["kind"], one_case)
+                      "concurrent": concurrent_case, "bulk": bulk_case}.get(case["kind"], one_case)
         fails = loop.run_until_complete(fn(case))
     finally:
         loop.close()
